@@ -1082,6 +1082,8 @@ class AnyObj:
         if self.elem is None:
             raise EngineError("subscript of a symbolic object without an element function")
         c = cur()
+        if isinstance(i, slice):
+            raise UncutLoop(f"slice of the symbolic-length container '{self.name}'")
         it = SymNum.lift(i)
         if it is None:
             raise TypeError("indices must be integers")
